@@ -2,6 +2,7 @@
 package c16
 
 import (
+	"unicode/utf8"
 	"math"
 	"os"
 	"sort"
@@ -498,6 +499,15 @@ func (g *aggGen) bucket() Agg {
 // genAggs draws the aggregation trees of one request.  same=false: every field is read by at
 // most one node of the request; same=true: at least one field is read by two nodes.
 func genAggs(t *rapid.T, p *params, same bool) []Agg {
+	aggs := genAggs0(t, p, same)
+	g := &aggGen{t: t, p: p}
+	for i := range aggs {
+		g.addFilters(&aggs[i])
+	}
+	return aggs
+}
+
+func genAggs0(t *rapid.T, p *params, same bool) []Agg {
 	g := &aggGen{t: t, p: p, same: same, used: map[string]int{}}
 	n := rapid.IntRange(1, 4).Draw(t, "nAggs")
 	var aggs []Agg
@@ -545,6 +555,47 @@ func genAggs(t *rapid.T, p *params, same bool) []Agg {
 		return aggs
 	}
 	return append(aggs, g.readerOf(f, true))
+}
+
+// addFilters lets about every fifth node read its field through a filtering source.
+func (g *aggGen) addFilters(a *Agg) {
+	for i := range a.Sub {
+		// a.Sub may share its backing array with another tree
+		if i == 0 {
+			a.Sub = append([]Agg(nil), a.Sub...)
+		}
+		g.addFilters(&a.Sub[i])
+	}
+	if a.Field == "" || rapid.IntRange(0, 4).Draw(g.t, "filtered") != 0 {
+		return
+	}
+	fl := &Flt{Op: rapid.SampledFrom([]string{"ge", "lt"}).Draw(g.t, "filterOp")}
+	switch fieldKind(a.Field) {
+	case "num":
+		b := g.numBound(a.Field, "filterBound")
+		if math.IsInf(float64(b), 0) {
+			b = F(g.p.origin["n1"])
+		}
+		fl.Num = b
+	case "date":
+		fl.Date = g.p.dateBase + int64(rapid.IntRange(-2, 52).Draw(g.t, "filterDate"))*g.p.dateStep
+	default:
+		vocab := g.p.k2Vocab
+		switch a.Field {
+		case "k1":
+			vocab = g.p.k1Vocab
+		case "t":
+			vocab = g.p.tVocab
+		}
+		fl.Op = rapid.SampledFrom([]string{"ge", "lt", "ne", "prefix", "ge"}).Draw(g.t, "filterTextOp")
+		fl.Str = vocab[rapid.IntRange(0, len(vocab)-1).Draw(g.t, "filterWord")]
+		if fl.Op == "prefix" && len(fl.Str) > 1 && rapid.Bool().Draw(g.t, "shortPrefix") {
+			_, sz := utf8.DecodeRuneInString(fl.Str)
+			fl.Str = fl.Str[:sz]
+		}
+		fl.Alt = rapid.Bool().Draw(g.t, "filterAlt")
+	}
+	a.Filter = fl
 }
 
 // readerOf builds some aggregation that reads field f.
